@@ -1,4 +1,5 @@
 import AtsimModel.Model.Validate
+import AtsimModel.Gen.Logic
 /-!
 # C16 — malformed models give configuration errors; valid models are never rejected
 
@@ -119,5 +120,43 @@ example : WellFormedSpline [[((false, 0), .form "as.zbl" [14, 8]), ((true, 4/5),
 example : validateSpline [[((false, 0), .form "as.buck" [1000, 3/10, 0]), ((false, 1), .form "buck4_spline" [3/2]), ((false, 2), .form "as.buck" [0, 1, 30])]] = .ok () := by
   rw [C16_spline_iff]
   refine ⟨_, _, _, _, _, _, _, rfl, by decide +kernel, by decide +kernel, Or.inr ⟨rfl, _, rfl, by decide +kernel, by decide +kernel⟩⟩
+
+/-! ## The code itself: target synonyms and the registry of tabulation factories, regenerated from the source
+
+`Atsim.Gen.Logic.init_target` is `_TabulationSection._init_target` (its `_target_synonyms` dictionary included) and
+`Atsim.Gen.Logic.tabulation_factories` the module-level `TABULATION_FACTORIES` dictionary, both produced by `translator/py2lean_logic.py` from the
+current source.  `validateTarget` IS their composition (`Configuration.read_from_parser`: default `LAMMPS`, then membership in the registry). -/
+
+/-- **code tie**: for every target text (given or omitted) the model's decision is: the code's synonym step, the default, then membership in the code's registry -/
+theorem C16_code_target (t : Option String) :
+    validateTarget t =
+      (let t' := (Atsim.Gen.Logic.init_target t).getD "LAMMPS"
+       if (Atsim.Gen.Logic.tabulation_factories.map (·.1)).contains t' then some t' else none) := by
+  cases t with
+  | none => decide
+  | some t =>
+    simp only [validateTarget, Atsim.Gen.Logic.init_target, Atsim.Gen.Logic.tabulation_factories, List.lookup, Option.getD, List.map]
+    by_cases h1 : t = "lammps_eam_alloy"
+    · subst h1; decide
+    · by_cases h2 : t = "LAMMPS_eam_alloy"
+      · subst h2; decide
+      · by_cases h3 : t = "DL_POLY"
+        · subst h3; decide
+        · have e1 : (t == "lammps_eam_alloy") = false := by simpa using h1
+          have e2 : (t == "LAMMPS_eam_alloy") = false := by simpa using h2
+          have e3 : (t == "DL_POLY") = false := by simpa using h3
+          simp [e1, e2, e3]
+
+/-- every documented target name reaches a registered factory in the code's own tables -/
+theorem C16_code_documented_targets :
+    ∀ t ∈ documentedTargets, (Atsim.Gen.Logic.tabulation_factories.map (·.1)).contains ((Atsim.Gen.Logic.init_target (some t)).getD "LAMMPS") = true := by
+  decide
+
+/-- the registry has no key twice, and every spelling that ends at the DL_POLY TABLE writer (whose row count must be a multiple of four, C02) is served by
+    the factory that validates that row count: there is no second route to `DLPoly_PairTabulation` that skips the check -/
+theorem C16_code_registry_sound :
+    (Atsim.Gen.Logic.tabulation_factories.map (·.1)).Nodup ∧
+    ∀ e ∈ Atsim.Gen.Logic.tabulation_factories, e.2.2.contains "DLPoly_PairTabulation" = true → e.2.1 = "DLPOLY_PairTabulationFactory" := by
+  decide
 
 end Atsim.C16
